@@ -21,8 +21,59 @@ fn run_query(db: &anything::Db, q: &str) -> serde_json::Value {
     json!({"q": q, "results": out, "desc": desc})
 }
 
+fn poison_layout() -> Result<(), String> {
+    use tantivy::schema::{Schema, STORED, TEXT};
+    let root = std::env::var("XDG_DATA_HOME").map_err(|e| e.to_string())?;
+    let path = std::path::Path::new(&root).join("facts").join("index");
+    let _ = std::fs::remove_dir_all(&path);
+    std::fs::create_dir_all(&path).map_err(|e| e.to_string())?;
+    let mut b = Schema::builder();
+    b.add_text_field("name", TEXT);
+    b.add_bytes_field("data", STORED);
+    let index = tantivy::Index::create_in_dir(&path, b.build()).map_err(|e| e.to_string())?;
+    let mut w = index.writer_with_num_threads(1, 50_000_000).map_err(|e| e.to_string())?;
+    w.commit().map_err(|e| e.to_string())?;
+    Ok(())
+}
+
+fn poison() -> Result<(), String> {
+    use tantivy::tokenizer::{LowerCaser, NgramTokenizer, TextAnalyzer};
+    let root = std::env::var("XDG_DATA_HOME").map_err(|e| e.to_string())?;
+    let path = std::path::Path::new(&root).join("facts").join("index");
+    let index = tantivy::Index::open_in_dir(&path).map_err(|e| e.to_string())?;
+    index.tokenizers().register("ngram", TextAnalyzer::from(NgramTokenizer::new(1, 7, true)).filter(LowerCaser));
+    let schema = index.schema();
+    let data = schema.get_field("data").ok_or("no data field")?;
+    let name = schema.get_field("name").ok_or("no name field")?;
+    let c = anything::Constant {
+        source: None,
+        tokens: vec!["zzyzx".into(), "quuxium".into()],
+        description: "a fact that is not shipped".into(),
+        value: anything::Rational::new(424242u32, 1u32),
+        unit: anything::Compound::default(),
+    };
+    let mut w = index.writer_with_num_threads(1, 50_000_000).map_err(|e| e.to_string())?;
+    let mut doc = tantivy::Document::default();
+    doc.add_bytes(data, serde_cbor::to_vec(&c).map_err(|e| e.to_string())?);
+    for t in &c.tokens {
+        doc.add_text(name, t.as_ref());
+    }
+    w.add_document(doc).map_err(|e| e.to_string())?;
+    w.commit().map_err(|e| e.to_string())?;
+    Ok(())
+}
+
 fn main() {
     let mode = std::env::var("DB_RUN_MODE").unwrap_or_default();
+    if mode == "poison_layout" {
+        // replace the on-disk index by one with another layout (the name field analysed by the default tokenizer), as another
+        // release might have written it
+        std::process::exit(match poison_layout() { Ok(()) => 0, Err(e) => { println!("{}", json!({"poison_error": e})); 3 } });
+    }
+    if mode == "poison" {
+        // add a document that is not part of the shipped data to the on-disk index (as an index written for other data would hold)
+        std::process::exit(match poison() { Ok(()) => 0, Err(e) => { println!("{}", json!({"poison_error": e})); 3 } });
+    }
     let db = if mode == "memory" { anything::Db::in_memory() } else { anything::Db::open() };
     let db = match db {
         Ok(db) => db,
